@@ -819,4 +819,19 @@ impl PeerHandler {
     pub fn verif_left(piece_length: usize) -> Vec<(usize, usize)> {
         PieceRx::left(piece_length).into_iter().collect()
     }
+
+    /// Drive the statistics of this task: `(0, n)` = `n` bytes downloaded, `(1, n)` = `n` bytes uploaded,
+    /// `(2, _)` = an unexpected block, `(3, _)` = the statistics timer fires (the private `timeout_sync_stats`,
+    /// which may send `SyncStats` to the manager channel).
+    pub async fn verif_stats_script(&mut self, ops: &[(u8, usize)]) -> Result<(), String> {
+        for (kind, n) in ops {
+            match kind {
+                0 => self.stats.update_downloaded(*n),
+                1 => self.stats.update_uploaded(*n),
+                2 => self.stats.increment_unexpected_piece(),
+                _ => self.timeout_sync_stats().await.map_err(|e| e.to_string())?,
+            }
+        }
+        Ok(())
+    }
 }
